@@ -74,7 +74,10 @@ def run(ctx):
     if tname not in iter_src:
         raise AnalysisError('_build_objs: loop does not iterate over the computed order')
     gb = m.get_function(BLD, 'Builder.get_dependency_graph')
-    edge = [n for n in ast.walk(gb.node) if isinstance(n, ast.Call) and X.dotted_attr(n.func) == 'edges.append']
+    # the edge list is the local handed to add_edges_from
+    addc = [n for n in ast.walk(gb.node) if isinstance(n, ast.Call) and (X.dotted_attr(n.func) or '').endswith('add_edges_from') and n.args]
+    en = ast.unparse(addc[0].args[0]) if addc else 'edges'
+    edge = [n for n in ast.walk(gb.node) if isinstance(n, ast.Call) and X.dotted_attr(n.func) == f'{en}.append']
     if len(edge) != 1 or not isinstance(edge[0].args[0], ast.Tuple):
         raise AnalysisError('get_dependency_graph: edges.append((a, b)) not found')
     a, b = (ast.unparse(e) for e in edge[0].args[0].elts)
@@ -98,7 +101,7 @@ def run(ctx):
      ctx.violation('R2', 'orientation x direction', f'{build.module.relpath}:{topo[0].lineno}',
                    f'edges are {orientation} and the traversal is `{tv}`: objects are scheduled before their dependencies', facts=facts))
     add = [n for n in ast.walk(gb.node) if isinstance(n, ast.Call) and (X.dotted_attr(n.func) or '').endswith('add_edges_from')]
-    (ctx.judge('R2', 'add_edges_from(edges)') if add and ast.unparse(add[0].args[0]) == 'edges' else
+    (ctx.judge('R2', 'add_edges_from(edges)') if add and ast.unparse(add[0].args[0]) == en else
      ctx.violation('R2', 'get_dependency_graph:add_edges_from', gb.where, 'edge list is not handed to networkx unchanged'))
     od = [n for n in ast.walk(dep_loop[0]) if isinstance(n, ast.Call) and (X.dotted_attr(n.func) or '').endswith('obj_dependencies.append')]
     (ctx.judge('R2', 'obj_dependencies records every dependency node') if od and ast.unparse(od[0].args[0]) in node_from_dep and
@@ -149,7 +152,8 @@ def run(ctx):
     barrier = None
     for st in bo.body[bo.body.index(main) + 1:]:
         for lp in [x for x in ast.walk(st) if isinstance(x, ast.For)]:
-            if 'dep_graph.nodes' in ast.unparse(lp.iter) and any(
+            gname = (X.names_assigned_from(build.node, 'get_dependency_graph(') or ['dep_graph'])[0]
+            if f'{gname}.nodes' in ast.unparse(lp.iter) and any(
                     isinstance(c, ast.Call) and X.call_name_of(c) == 'wait_and_check' for c in ast.walk(lp)):
                 barrier = lp
     (ctx.judge('R3', 'barrier after scheduling loop') if barrier is not None else
